@@ -66,7 +66,8 @@ Definition bind {A B} (r : result A) (f : A -> result B) : result B :=
   match r with Ok a => f a | Err e => Err e end.
 
 (* construct_params for parameter set number [g]: keys that are not binds of the statement are ignored,
-   a bind without value raises; prefetch binds start as None *)
+   a bind without value raises; a prefetch bind carries the column's name, so it starts as the value the
+   set happens to supply under that name, else None (_process_execute_defaults overwrites it anyway) *)
 Fixpoint construct (p0 : pset) (g : nat) (cols : list col) (p : pset) : result pset :=
   match cols with
   | [] => Ok []
@@ -77,7 +78,9 @@ Fixpoint construct (p0 : pset) (g : nat) (cols : list col) (p : pset) : result p
           | Some v => bind (construct p0 g r p) (fun t => Ok ((ckey c, v) :: t))
           | None => Err (ERequired g (ckey c))
           end
-      | SPrefetch => bind (construct p0 g r p) (fun t => Ok ((ckey c, None) :: t))
+      | SPrefetch =>
+          bind (construct p0 g r p)
+               (fun t => Ok ((ckey c, match get (ckey c) p with Some v => v | None => None end) :: t))
       | _ => construct p0 g r p
       end
   end.
@@ -185,6 +188,8 @@ Definition orm_update_params (cols : list col) (old attrs : pset) : pset :=
                                       then [] else [(ckey c, v)]
                           | None => []
                           end) cols.
+(* an object none of whose column attributes changed emits no UPDATE at all *)
+Definition has_change (params : pset) : bool := existsb (fun kv => negb (Nat.eqb (fst kv) O)) params.
 (* records are executed in consecutive groups of equal key sets (itertools.groupby) *)
 Definition same_keys (cols : list col) (a b : pset) : bool :=
   forallb (fun c => Bool.eqb (has (ckey c) a) (has (ckey c) b)) cols.
